@@ -22,6 +22,8 @@ impl World {
         std::fs::write(dir.join("defs_ok.txt"), "CREATE TABLE t(line = '(.*)', line[1] => x TEXT);\n").unwrap();
         std::fs::write(dir.join("defs_two.txt"), "CREATE TABLE t(line = '(.*)', line[1] => x TEXT);\nCREATE TABLE u(l2 = '(.)', l2[1] => y TEXT);\n").unwrap();
         std::fs::write(dir.join("defs_bad.txt"), "CREATE TABLE t(line = ").unwrap();
+        std::fs::write(dir.join("defs_twobad.txt"), "CREATE TABLE t(line = '(.*)', line[1] => x TEXT);\nCREATE TABLE u(l2 = '(', l2[1] => y TEXT);\n").unwrap();
+        std::fs::write(dir.join("defs_nosemi.txt"), "CREATE TABLE t(line = '(.*)', line[1] => x TEXT)\n").unwrap();
         std::fs::write(dir.join("defs_session.txt"), "CREATE TABLE t(line = '(.*)', line[1] => x TEXT);\nCREATE TABLE j(l4 = '^(..)=(.)$', l4[1] => x TEXT, l4[2] => y TEXT);\n").unwrap();
         std::fs::write(dir.join("fj.txt"), "a1=p\na1=q\nb1=r\n").unwrap();
         World { dir }
@@ -36,6 +38,10 @@ impl World {
             "from" => format!("SELECT x FROM t::'{}'", self.path("fc")),
             "frommissing" => format!("SELECT x FROM t::'{}'", self.path("missing")),
             "parsebad" => "SELEC x FROM t".into(),
+            "parsetrunc" => "SELECT x FROM\n".into(),
+            "parsetrunc2" => "SELECT x FROM t WHERE\n\n".into(),
+            "commentsemi" => "SELECT x -- first; column\nFROM t -- all; of them\nLIMIT 1".into(),
+            "trailnl" => "SELECT x FROM t LIMIT 2;\n".into(),
             "notable" => "SELECT x FROM nosuch".into(),
             "create" => "CREATE TABLE w(l3 = 'q', l3[1] => z TEXT);".into(),
             "second" => "SELECT y FROM u".into(),
@@ -142,6 +148,55 @@ pub fn trace_sigint(seed: u64, n: usize) -> Vec<J> {
     std::fs::write(&defs, "CREATE TABLE t(line = 'k=([a-z]+) v=([0-9]+)', line[1] => k TEXT, line[2] => v INT);\nCREATE TABLE u(jl = 'k=([a-z]+) v=([0-9]+)', jl[1] => k TEXT, jl[2] => w INT);\n").unwrap();
     let join_query = format!("SELECT COUNT(*) AS n, MAX(v) AS m FROM t INNER JOIN u::'{}' ON t.k = u.k", joined.to_str().unwrap());
     let mut ev = Vec::new();
+    // a long joined file (2 500 000 lines, about 27 MB): an interrupt WHILE IT IS BEING LOADED ends the run at once -- at most ten more of its lines are read
+    // (observed as the read offset of the joined file in /proc/<pid>/fdinfo: it stops within a few read-ahead buffers of where it stood when the signal was sent),
+    // nothing is printed, no input line is processed, no error, status 0
+    let longjoin = dir.join("longjoin.txt");
+    { let mut s = String::with_capacity(30_000_000); for j in 0..2_500_000u64 { s.push_str(&format!("k=b v={}\n", j % 1000)); } std::fs::write(&longjoin, s).unwrap(); }
+    let longjoin_size = std::fs::metadata(&longjoin).unwrap().len();
+    for i in 0..std::cmp::max(1, n / 5) {
+        let query = if i % 2 == 0 { format!("SELECT v, w FROM t INNER JOIN u::'{}' ON t.k = u.k", longjoin.to_str().unwrap()) }
+                    else { format!("SELECT COUNT(*) AS n FROM t OUTER JOIN u::'{}' ON t.k = u.k", longjoin.to_str().unwrap()) };
+        tick(&json!({"joinload": i}));
+        let mut child = Command::new(cli()).env("TZ", "UTC").env_remove("RUST_BACKTRACE")
+            .args(["-d", defs.to_str().unwrap(), data.to_str().unwrap(), "--show-run-stats", "-c", &query])
+            .stdin(Stdio::null()).stdout(Stdio::piped()).stderr(Stdio::piped()).spawn().unwrap();
+        let pid = child.id().to_string();
+        let pos_of = |pid: &str| -> Option<u64> {
+            let rd = std::fs::read_dir(format!("/proc/{}/fd", pid)).ok()?;
+            for e in rd.flatten() {
+                if std::fs::read_link(e.path()).map(|p| p == longjoin).unwrap_or(false) {
+                    let info = std::fs::read_to_string(format!("/proc/{}/fdinfo/{}", pid, e.file_name().to_string_lossy())).ok()?;
+                    return info.lines().find_map(|l| l.strip_prefix("pos:").map(|x| x.trim().parse().unwrap_or(0)));
+                }
+            }
+            None
+        };
+        // wait until the load is under way (some hundred KB in), then interrupt
+        let want = 200_000 + rng.gen_range(0..2_000_000u64);
+        let t0 = std::time::Instant::now();
+        let mut at_signal = 0u64;
+        while t0.elapsed().as_secs() < 30 { if let Some(p) = pos_of(&pid) { at_signal = p; if p >= want { break; } } std::thread::sleep(std::time::Duration::from_micros(200)); }
+        let _ = Command::new("kill").args(["-INT", &pid]).status();
+        let t1 = std::time::Instant::now();
+        let mut last = at_signal;
+        loop {
+            if let Some(p) = pos_of(&pid) { if p > last { last = p; } }
+            if let Ok(Some(_)) = child.try_wait() { break; }
+            if t1.elapsed().as_secs() > 60 { let _ = child.kill(); break; }
+            std::thread::sleep(std::time::Duration::from_micros(200));
+        }
+        let status = child.wait().unwrap();
+        let mut out = String::new(); let mut stderr = String::new();
+        { use std::io::Read; if let Some(mut o) = child.stdout.take() { let _ = o.read_to_string(&mut out); } if let Some(mut e) = child.stderr.take() { let _ = e.read_to_string(&mut stderr); } }
+        let lines: Vec<&str> = out.lines().collect();
+        let err = lines.iter().any(|l| l.starts_with("Execution error") || l.starts_with("Failed")) || stderr.contains("panicked");
+        let processed: u64 = lines.iter().rev().find(|l| l.starts_with("Executed query in"))
+            .and_then(|l| l.rsplit("processed ").next().and_then(|t| t.split(' ').next()).and_then(|t| t.parse().ok())).unwrap_or(u64::MAX >> 40);
+        let recs = lines.iter().filter(|l| !l.starts_with("Executed query in") && !l.is_empty()).count();
+        ev.push(json!({"ev": "sigint", "kind": "joinload", "exit": status.code().unwrap_or(255), "err": err, "records": recs, "processed": processed,
+                       "kb_at_signal": at_signal / 1024, "kb_last": last / 1024, "kb_size": longjoin_size / 1024, "ms_to_exit": t1.elapsed().as_millis() as u64, "agg": i % 2 == 1}));
+    }
     for i in 0..n {
         let agg = i % 2 == 1;
         let fan = if agg && i % 4 == 3 { FAN } else { 1 };
@@ -208,6 +263,7 @@ pub fn trace_sigint(seed: u64, n: usize) -> Vec<J> {
 
 fn session_line(c: &str, w: &World) -> String {
     if c == "join" { return format!("SELECT x, y FROM t INNER JOIN j::'{}' ON t.x = j.x;", w.path("fj")); }
+    if c == "join2" { return format!("SELECT x, y FROM t INNER JOIN j::'{}' ON t.x = j.y;", w.path("fj")); }
     match c {
         "all" => "SELECT x FROM t;", "count" => "SELECT COUNT(*) AS n FROM t;", "group" => "SELECT x, COUNT(*) AS n FROM t GROUP BY x;",
         "limit1" => "SELECT x FROM t LIMIT 1;", "selw" => "SELECT z FROM w;", "dist" => "SELECT DISTINCT z FROM w;",
